@@ -231,6 +231,29 @@ func permutations(n int) [][]int {
 	return out
 }
 
+var searchKeyNames = map[string]bool{"ALL": true, "ANSWERED": true, "BCC": true, "BEFORE": true, "BODY": true, "CC": true, "DELETED": true, "FLAGGED": true, "FROM": true, "KEYWORD": true, "NEW": true, "OLD": true, "ON": true, "RECENT": true, "SEEN": true, "SINCE": true, "SUBJECT": true, "TEXT": true, "TO": true, "UNANSWERED": true, "UNDELETED": true, "UNFLAGGED": true, "UNKEYWORD": true, "UNSEEN": true, "DRAFT": true, "HEADER": true, "LARGER": true, "NOT": true, "OR": true, "SENTBEFORE": true, "SENTON": true, "SENTSINCE": true, "SMALLER": true, "UID": true, "UNDRAFT": true}
+
+// respell writes the search-key names of a key list in lower or mixed case (search keys are
+// case-insensitive atoms; their arguments are left alone).
+func respell(rng *rand.Rand, text string) string {
+	f := strings.Split(text, " ")
+	mode := rng.Intn(2)
+	for i, t := range f {
+		bare := strings.TrimLeft(t, "(")
+		if !searchKeyNames[strings.ToUpper(bare)] || bare != strings.ToUpper(bare) {
+			continue
+		}
+		b := []byte(t)
+		for k := range b {
+			if b[k] >= 'A' && b[k] <= 'Z' && (mode == 0 || rng.Intn(2) == 0) {
+				b[k] += 32
+			}
+		}
+		f[i] = string(b)
+	}
+	return strings.Join(f, " ")
+}
+
 func serverKeys(w *hx.W, uni []sr.Msg, ctx sr.Ctx) {
 	srv := kit.NewServer(kit.ServerCfg{Caps: imap.CapSet{imap.CapIMAP4rev1: {}, imap.CapIMAP4rev2: {}}, InsecureAuth: true})
 	defer srv.Close()
@@ -266,6 +289,10 @@ func serverKeys(w *hx.W, uni []sr.Msg, ctx sr.Ctx) {
 				parts = append(parts, ks[idxs[p]].text)
 			}
 			line := "SEARCH " + strings.Join(parts, " ")
+			if pi%3 == 1 {
+				line = "SEARCH " + respell(rng, strings.Join(parts, " "))
+				w.Metric("search_commands_with_respelled_keys", 1)
+			}
 			if uid {
 				line = "UID " + line
 			}
